@@ -706,6 +706,10 @@ type hState struct {
 	fp           string // fingerprint (as the property defines it) at the last successful attempt
 	why          string // why not clean: never_ran, failed_cmd, prompt_declined, crashed, cancelled
 	everRan      bool
+	// the last invocation that reached the task was the wrapper next to the always-failing sibling and the task's
+	// commands did not run: its attempt may have been cancelled part-way (e.g. during its status check), and a
+	// cancelled attempt is allowed to forget the record -- the next run may execute the commands or skip them
+	afterCancel bool
 }
 
 var hRunCounter int
@@ -1129,6 +1133,8 @@ func runHOne(t *testing.T, ch *vs.Choices, prop string, render bool, p *hProj, h
 						break
 					}
 					declined := x.Prompt && !strings.Contains(strings.Join(s.argv(p, dir), " "), "--yes")
+					wasAfterCancel := st[ti].afterCancel
+					st[ti].afterCancel = !ran && !crashed && inv.exit != 0 && (wrapper || wasAfterCancel)
 					switch {
 					case e.preFail && forced:
 						// --force is documented to skip preconditions: nothing asserted here, only bookkeeping
@@ -1215,6 +1221,14 @@ func runHOne(t *testing.T, ch *vs.Choices, prop string, render bool, p *hProj, h
 						violate(pr, sig, "%s: task %s was skipped as up to date but has to run (%s)", desc, x.Name, e.cause)
 						// resynchronise the model with what the program believes
 						reached = true
+					case !e.mustRun && ran && wasAfterCancel:
+						out.Hit("rerun_after_cancelled_attempt")
+						if done {
+							st[ti].clean, st[ti].fp, st[ti].changes, st[ti].cleanAt = true, e.fpNow, map[string]bool{}, now()
+						} else {
+							st[ti].clean, st[ti].why = false, "failed_cmd"
+							reached = false
+						}
 					case !e.mustRun && ran:
 						sig := "rerun_unchanged|" + x.method(p)
 						if st[ti].lastOKForced {
